@@ -595,7 +595,9 @@ func (g *c07Gen) oddByte() byte {
 
 var c07Prefixes = []string{"archived:", "b:", "branch:", "c:", "case:", "content:", "f:", "file:", "fork:", "public:", "r:", "regex:", "repo:", "lang:", "sym:", "t:", "type:", "meta.", "meta.k:", "meta.team:", "foo:", "FILE:", "-", ""}
 
-var c07OddValues = []string{"", `""`, `"`, `\`, `\\`, "(", ")", "()", "(a", "a)", "*", "+", "?", "[", "[a", "a{2,1}", "a{1001}", "(?", "(?i)", "(?P<n>a)", `\p{Greek}`, `\pN`, `\Q.\E`, "a|b", "(a|b)", "(a b)", "( a b )", "yes", "no", "auto", "repo", "file", "filename", "filematch", "HEAD", "-", "-a", "or", ":", "x:y", "a:", "é", "\xff", "\x00", " ", `a\ b`, `"a b"`, `"a\"b"`, ".*", ".", "^", "$", "^$", `\b`, "a**", "(?i:A)", "[[:alpha:]]", "[^\\n]", `\z`, `\A`, "ab", "abc", "Abc"}
+var c07OddValues = []string{"", `""`, `"`, `\`, `\\`, "(", ")", "()", "(a", "a)", "*", "+", "?", "[", "[a", "a{2,1}", "a{1001}", "(?", "(?i)", "(?P<n>a)", `\p{Greek}`, `\pN`, `\Q.\E`, "a|b", "(a|b)", "(a b)", "( a b )", "yes", "no", "auto", "repo", "file", "filename", "filematch", "HEAD", "-", "-a", "or", ":", "x:y", "a:", "é", "\xff", "\x00", " ", `a\ b`, `"a b"`, `"a\"b"`, ".*", ".", "^", "$", "^$", `\b`, "a**", "(?i:A)", "[[:alpha:]]", "[^\\n]", `\z`, `\A`, "ab", "abc", "Abc",
+	// regexp corners: classes that match no rune, empty alternatives and groups, zero repeats, class edge cases
+	`[^\d\D]`, `[^\s\S]`, `[^\w\W]`, `[^\x00-\x{10FFFF}]`, `a[^\d\D]b`, `(abc|[^\d\D])x`, `[^\pL\PL]`, `(|a)`, `(a|)`, `()`, `(?:)`, `a{0}`, `a{0,0}`, `(a{0}b)`, `[\x{10FFFF}]`, `[^\x{10FFFF}]`, `[z-a]`, `[a-\d]`, `[[:^alpha:]]`, `[[:word:]]`, `[\]]`, `[^\]]`, `[-a]`, `[a-]`, `[\-]`, `(?s:.)`, `(?U)a+`, `(?m:^a$)`, `(?i)[k]`, `\pZ`, `\PZ`, `\p{^Greek}`, `\C`, `\x{110000}`, `\8`, `(?P<>a)`, `(?<n>a)`, `x*?`, `x+?`, `x??`, `x{2,}?`, `\Qa.b`, `\E`, `[\Q]\E]`, "(?i:\u212a)", `a|`, `|`, `||`, `^*`, `$+`, `\b+`}
 
 var c07Kinds = []string{"filematch", "filename", "file", "repo", "REPO", "", "x", `"repo"`}
 
